@@ -60,8 +60,11 @@ from liquid2.exceptions import TemplateNotFoundError
 NAMES = ["a", "b", "c"]
 NS_SETS = [[None], [None, "n1"], [None, "n1", "n2"], ["n1", "n2"]]
 # two callers' globals that Python's == cannot tell apart ({"g": 1} == {"g": True}) but that render differently
-GLOBALS = {"g1": {"g": 1}, "g2": {"g": True}}
-GTEXT = {None: "", "g1": "1", "g2": "true"}
+# ... and others that are equal value by value yet render differently (signed zero, key order)
+GLOBALS = {"g1": {"g": 1}, "g2": {"g": True}, "g3": {"g": 0.0}, "g4": {"g": -0.0},
+           "g5": {"g": {"a": 1, "b": 2}}, "g6": {"g": {"b": 2, "a": 1}}}
+GTEXT = {None: "", "g1": "1", "g2": "true", "g3": "0.0", "g4": "-0.0",
+         "g5": "{'a': 1, 'b': 2}", "g6": "{'b': 2, 'a': 1}"}
 NS_KEY = "ns"
 MTIME_BASE = 1_500_000_000
 
@@ -190,6 +193,7 @@ class World:
             self.loader = NsCachingChoiceLoader([FileSystemLoader(root), DictLoader(self.templates)], **kw)
         self.env = Environment(loader=self.loader, globals={"e": "E"} if cfg.get("eglob") else None)
         self.via = cfg.get("via", "kw")
+        self.direct = bool(cfg.get("direct"))
         self.mtime_back = cfg.get("mtime") == "back"
         self._dummy = self.env.from_string("")
 
@@ -243,7 +247,10 @@ class World:
         for j, (name, ns, g) in enumerate(gets):
             before = self.ident()
             try:
-                tmpl = self.env.get_template(name, **self.get_kwargs(ns, g))
+                if self.direct:
+                    tmpl = self.loader.load(self.env, name, **self.get_kwargs(ns, g))
+                else:
+                    tmpl = self.env.get_template(name, **self.get_kwargs(ns, g))
                 acts.append({"ok": True, "tmpl": tmpl})
             except Exception as err:  # noqa: BLE001
                 acts.append(self._err(err, before))
@@ -263,7 +270,10 @@ class World:
         before = self.ident()
         tmpl = None
         try:
-            tmpl = await self.env.get_template_async(name, **self.get_kwargs(ns, g))
+            if self.direct:
+                tmpl = await self.loader.load_async(self.env, name, **self.get_kwargs(ns, g))
+            else:
+                tmpl = await self.env.get_template_async(name, **self.get_kwargs(ns, g))
             acts[j] = {"ok": True}
         except Exception as err:  # noqa: BLE001
             acts[j] = self._err(err, before)
@@ -395,6 +405,8 @@ ALPHABET: list[list[Any]] = [
     ["L", "s", "a", None, None],
     ["L", "s", "a", None, "g1"],
     ["L", "s", "a", None, "g2"],
+    ["L", "s", "a", None, "g3"],
+    ["L", "s", "a", None, "g4"],
     ["L", "s", "b", None, None],
     ["L", "s", "c", None, "g1"],
     ["L", "s", "a", "n1", None],
@@ -479,15 +491,15 @@ def _decode(cfg: tuple[Any, ...], raw: list[tuple[int, ...]]) -> dict[str, Any]:
     loader, cap, reload_, via, eglob, nn, nsi, back = cfg
     names = NAMES[:nn]
     nss = NS_SETS[nsi]
-    gs = [None, "g1", "g2"]
+    gs = [None, "g1", "g2", None, "g3", "g4", "g5", "g6"]
     hist: list[list[Any]] = []
     for k, n1, s1, g1, m, n2, s2, g2 in raw:
         name, ns = names[n1 % nn], nss[s1 % len(nss)]
         if k < 10:
-            hist.append(["L", "s" if m < 2 else "a", name, ns, gs[g1]])
+            hist.append(["L", "s" if m < 2 else "a", name, ns, gs[g1 % len(gs)]])
         elif k < 12:
-            hist.append(["S", ["s", "a", "t", "s"][m], [name, ns, gs[g1]],
-                         [names[n2 % nn], nss[s2 % len(nss)], gs[g2]]])
+            hist.append(["S", ["s", "a", "t", "s"][m], [name, ns, gs[g1 % len(gs)]],
+                         [names[n2 % nn], nss[s2 % len(nss)], gs[g2 % len(gs)]]])
         elif k < 16:
             hist.append(["M", name, ns])
         elif k < 18:
@@ -511,10 +523,13 @@ def history_case(draw: Any, disabled: frozenset[str]) -> dict[str, Any]:
         draw(st.integers(0, 2)) == 0,
     )
     lo = draw(st.sampled_from([1, 3, 6, 12, 24]))
-    op = st.tuples(st.integers(0, 19), st.integers(0, 2), st.integers(0, 2), st.integers(0, 2),
-                   st.integers(0, 3), st.integers(0, 2), st.integers(0, 2), st.integers(0, 2))
+    op = st.tuples(st.integers(0, 19), st.integers(0, 2), st.integers(0, 2), st.integers(0, 7),
+                   st.integers(0, 3), st.integers(0, 2), st.integers(0, 2), st.integers(0, 7))
     raw = draw(st.lists(op, min_size=lo, max_size=40))
-    return normalise(_decode(cfg, raw), disabled)
+    case = _decode(cfg, raw)
+    if draw(st.integers(0, 3)) == 0:
+        case["direct"] = True  # the documented loader.load(env, name, ...) rather than env.get_template()
+    return normalise(case, disabled)
 
 
 # --------------------------------------------------------------------------- the property
@@ -532,7 +547,7 @@ class C14(Prop):
         "dict base], capacity 1-3, auto_reload on/off, namespace passed as loader keyword or through the render "
         "context, environment globals on/off) plus a history over {load-and-render sync/async, get-get-render-render "
         "sync/async/two tasks, modify, delete, fail-next-load} on <= 3 names x {no namespace, n1, n2} x globals "
-        "{none, g1, g2}; every history of length <= 3 (quick) / <= 4 (thorough) over a fixed 20-operation alphabet "
+        "{none, g1..g6}; every history of length <= 3 (quick) / <= 4 (thorough) over a fixed 22-operation alphabet "
         "is enumerated for 12 configurations, random histories have up to 40 operations; non-trivial when the "
         "model sees a hit or reload on a key whose source changed since it was cached, or an eviction, or two "
         "gets of one key with different globals, or of one name with different namespaces; distinct by SHA-1 of "
@@ -575,6 +590,14 @@ class C14(Prop):
                     yield {**cfg, "h": [list(op) for op in hist]}
                     if cfg["loader"] != "dict" and cfg["reload"] and any(op[0] == "M" for op in hist):
                         yield {**cfg, "h": [list(op) for op in hist], "mtime": "back"}
+
+        # the documented loader.load(env, name, ...) entry, with environment globals in play
+        for n in (1, 2, 3):
+            for hist in itertools.product(ALPHABET[:9], repeat=n):
+                if hist[-1][0] == "L":
+                    for ld in ("dict", "fs"):
+                        yield {"loader": ld, "cap": 2, "reload": True, "via": "kw", "eglob": True, "direct": True,
+                               "h": [list(op) for op in hist]}
 
         # two search paths, one or two names, histories of writes / deletes / loads
         alphabet = [["w", 0, "x"], ["w", 1, "x"], ["d", 0, "x"], ["d", 1, "x"], ["L", "s", "x"], ["L", "a", "x"],
